@@ -378,6 +378,50 @@ Definition run_session_a (ac : acct) (g : cfg) (sid : N) (link : option N) (aok 
          | None => []
          end.
 
+Fixpoint all2 {A B} (f : A -> B -> bool) (a : list A) (b : list B) : bool :=
+  match a, b with
+  | [], [] => true
+  | x :: a', y :: b' => f x y && all2 f a' b'
+  | _, _ => false
+  end.
+
+(* ---------- the single exit under FAILING side writes ----------
+   Besides the log, the end of a run makes best-effort writes that can fail (disk full, read-only data directory, a
+   tool of this or an earlier run that put something else where the target should be):
+     SwSnapshot     rip_log::write_snapshot(<data>/snapshots/<session>.json): create_dir_all, File::create, write_all,
+                    flush - after the terminal frame, before append_run_ended (`let _ = write_snapshot(..)`);
+     SwThreadCache  ContinuityStreamCache::append_best_effort(<data>/continuity_streams/…): the sidecar line and the
+                    seek / message indexes of every thread frame, inside the append, after its log write;
+     SwArtifacts    <workspace>/.rip/artifacts (context bundle, summaries): a failure is a compile outcome
+                    (session_ended context_compile_failed), i.e. the input parameter `compile_ok`;
+     SwCheckpoints  <workspace>/.rip/checkpoints (auto checkpoint before a mutating tool): a failure is the frame
+                    checkpoint_failed, i.e. the input parameter `t_auto`.
+   `f w = true`: that write of this run fails.  The exit GATE = the side writes whose failure the code lets suppress the
+   append of continuity_run_ended.  session.rs today: none (`let _ = write_snapshot(..); drop(guard);
+   if let Some(link) = continuity_run { let _ = continuities.append_run_ended(..) }`).
+   Gen/RunLifecycleGen.v re-reads it from run_session on every run (gen_exit_gate). *)
+Inductive side_write := SwSnapshot | SwThreadCache | SwArtifacts | SwCheckpoints.
+Definition side_write_eqb (a b : side_write) : bool :=
+  match a, b with
+  | SwSnapshot, SwSnapshot | SwThreadCache, SwThreadCache | SwArtifacts, SwArtifacts | SwCheckpoints, SwCheckpoints => true
+  | _, _ => false
+  end.
+Definition EXIT_GATE : list side_write := [].
+Definition gate_unconditional (gate : list side_write) : bool := match gate with [] => true | _ :: _ => false end.
+Definition gate_eqb (a b : list side_write) : bool := all2 side_write_eqb a b.
+(* run_ended is attempted iff no side write of the gate failed *)
+Definition gate_open (gate : list side_write) (f : side_write -> bool) : bool := negb (existsb f gate).
+
+(* run_session with the gate and the run's failing side writes as parameters (at an empty gate it IS run_session,
+   for every failure pattern: run_session_x_ungated in the proofs) *)
+Definition run_session_x (gate : list side_write) (f : side_write -> bool)
+           (g : cfg) (sid : N) (link : option N) (aok : ck -> bool) (inp : input) : list ev :=
+  let evs := ES sid 0 SStarted :: run_body g sid link aok inp in
+  evs ++ match link with
+         | Some mid => if gate_open gate f then capp aok (CRunEnded sid mid (last_reason sid evs)) else []
+         | None => []
+         end.
+
 (* provider requests a run made: its openresponses_request_started frames *)
 Definition is_reqk (k : sk) : bool := match k with SReqStarted => true | _ => false end.
 Definition is_req (e : ev) : bool := match e with ES _ _ k => is_reqk k | EC _ => false end.
@@ -452,6 +496,22 @@ Definition act_events (aok : ck -> bool) (a : act) : list ev :=
   match a with
   | APost g mid sid inp => post_message g aok mid sid inp
   | AInput g sid inp => run_session g sid None aok inp
+  | AJob j o => job aok j o
+  end.
+
+(* the activities with the exit gate and every run's failing side writes as parameters: `swf sid w` = side write w of
+   the run with session id sid fails (a pattern over the whole store: a damaged directory fails every later run too) *)
+Definition post_message_x (gate : list side_write) (f : side_write -> bool) (g : cfg) (aok : ck -> bool) (mid sid : N) (inp : input) : list ev :=
+  if aok (CMessage mid) then
+    EC (CMessage mid) ::
+    (if aok (CRunSpawned sid mid) then EC (CRunSpawned sid mid) :: run_session_x gate f g sid (Some mid) aok inp
+     else [])
+  else [].
+
+Definition act_events_x (gate : list side_write) (swf : N -> side_write -> bool) (aok : ck -> bool) (a : act) : list ev :=
+  match a with
+  | APost g mid sid inp => post_message_x gate (swf sid) g aok mid sid inp
+  | AInput g sid inp => run_session_x gate (swf sid) g sid None aok inp
   | AJob j o => job aok j o
   end.
 
@@ -637,26 +697,30 @@ Record case := {
   k_expect : list (list N);
   k_races : list (N * N);     (* stepped concurrent inputs: (number of senders, number of accepted inputs) per round *)
   k_faults : list N;          (* fault injection: the kinds of continuity frames (head of ck_code) whose append fails *)
-  k_drops : list (list N) }.  (* posts whose request future was dropped at the handler's suspension point: the frames
+  k_drops : list (list N);    (* posts whose request future was dropped at the handler's suspension point: the frames
                                  each left in the log (message id written 0) *)
-
-Fixpoint all2 {A B} (f : A -> B -> bool) (a : list A) (b : list B) : bool :=
-  match a, b with
-  | [], [] => true
-  | x :: a', y :: b' => f x y && all2 f a' b'
-  | _, _ => false
-  end.
+  k_swf : list (N * list N) }. (* failing side writes: (session id of the run, codes of the side writes that failed in it) *)
 
 (* AppendOk fails for exactly the frame kinds the harness made fail (rip_kernel::verif::fail) *)
 Definition aok_of (faults : list N) (k : ck) : bool :=
   negb (existsb (N.eqb (hd 0 (ck_code k))) faults).
 
+(* the failure pattern the harness produced (fail hook snap.write / a tool that damaged the target directory) *)
+Definition sw_code (w : side_write) : N :=
+  match w with SwSnapshot => 1 | SwThreadCache => 2 | SwArtifacts => 3 | SwCheckpoints => 4 end.
+Definition swf_of (l : list (N * list N)) (sid : N) (w : side_write) : bool :=
+  existsb (fun p : N * list N => (fst p =? sid) && existsb (N.eqb (sw_code w)) (snd p)) l.
+
+(* every activity is evaluated with the gate the model has and the failure pattern of the case *)
+Definition case_events (c : case) (a : act) : list ev :=
+  act_events_x EXIT_GATE (swf_of (k_swf c)) (aok_of (k_faults c)) a.
+
 Definition check_case (c : case) : bool :=
-  all2 (fun a e => lN_eqb (enc_evs (act_events (aok_of (k_faults c)) a)) e) (k_acts c) (k_expect c)
+  all2 (fun a e => lN_eqb (enc_evs (case_events c a)) e) (k_acts c) (k_expect c)
   && forallb (fun r : N * N => race_accepted GUARD_KIND (fst r) =? snd r) (k_races c)
   && forallb (fun e : list N =>
                 lN_eqb (enc_evs (post_message_hung POST_ORDER {| g_provider := false; g_stateless := false |} all_ok 0 0 (IPrompt true []) true)) e)
              (k_drops c).
 
 Definition model_obs (c : case) : list N :=
-  flat_map (fun a => enc_evs (act_events (aok_of (k_faults c)) a)) (k_acts c).
+  flat_map (fun a => enc_evs (case_events c a)) (k_acts c).
